@@ -55,6 +55,7 @@ def run_update(ctx, phase="olivine", fabric="olivine_A", regime="matrix_dislocat
     R = Run()
     R.N = N
     R.rhs_calls = []       # (t, y array, result)
+    R.rhs_conditions = []  # per rhs call: (early-exit guards, joined branch conditions) met during that evaluation
     R.deriv_calls = []     # kwargs of core.derivatives calls
     R.gbs_calls = []       # args of utils.apply_gbs calls
     R.solver = None
@@ -81,8 +82,10 @@ def run_update(ctx, phase="olivine", fabric="olivine_A", regime="matrix_dislocat
             I2.emit("solver-step", (k,))
             tk = alg.sym(f"t{k}")
             yk = symarr(f"Yq{k}", s.attrs["y"].shape)
+            g0, b0 = len(I2.guards), len(I2.branches)
             res = I2.call(fun, (tk, yk))
             R.rhs_calls.append((tk, yk, res))
+            R.rhs_conditions.append((list(I2.guards[g0:]), list(I2.branches[b0:])))
             if fail_at is not None and k == fail_at:
                 s.attrs["status"] = "failed"
                 return "solver failure message"
